@@ -345,7 +345,7 @@ def seed_identity(ctx, dim, via):
                   and c["kind"] == "generic" for nx in ("reuse", "reuse-structured")],
           functions=["field/srf.py:SRF.__call__", "field/generator.py:RandMeth.update", "covmodel/tools.py:compare",
                      "field/base.py:Field.pre_pos"],
-          nsamples=1, search=20)
+          nsamples=1, search=20, timeout=120)
 def srf_inplace(ctx, dim, what, tol, kind, next):
     """next=reuse: the second call reuses the stored positions (`srf()` without `pos`): they are transformed
     with the model as it is NOW (no stale isometrised positions)"""
